@@ -94,7 +94,7 @@ def run_C11(ctx):
     drive_client(ctx, r.stdout_path, "reasons", "result,events", "whole,bytewise,mid", agg)
     # retry count is per run of consecutive failures (a successful connection starts a fresh run), and errors that merely look
     # like context errors (a transport's own deadline) while the request's context is alive are ordinary retryable errors
-    r = tlc_client(ctx, "ClientRuns", cfgs([1, 2]), [P, P + ["data", "COLON", "y"]], ["clean", "errctx", "errwrapeof", "cancel_eof"],
+    r = tlc_client(ctx, "ClientRuns", cfgs([-1, 1, 2]), [P, P + ["data", "COLON", "y"], P + P], ["clean", "errctx", "errwrapeof", "cancel_eof", "cancel_cb"],
                    ["transport", "transport_ctx", "stream"], 4 if q else 5, False)
     drive_client(ctx, r.stdout_path, "runs", "result,events,waits", "whole", agg)
     r = tlc_client(ctx, "ClientBodyReset", cfgs([0, 1], body=("nil", "nobody", "getbody", "nogetbody", "failgetbody")), [P, P + ["data", "COLON", "y"]],
